@@ -537,8 +537,14 @@ class FuncFacts:
                     continue
                 na, nb = isinstance(a_, ast.Constant) and a_.value is None, isinstance(b_, ast.Constant) and b_.value is None
                 if na != nb and isinstance(mv, ast.Call) and isinstance(mv.func, ast.Name) and mv.func.id == PHI:
-                    self.__dict__.setdefault("phi_cond", {})[unparse(mv)] = list(neg if na else pos)
-                    _PHI_COND_ALL[unparse(mv)] = list(neg if na else pos)
+                    # everything that held at the end of the binding branch and not before the `if` (its test, asserts inside it),
+                    # plus - when the bound value is itself an optional carrier - what that one stands for
+                    side_facts = r2[1] if na else r1[1]
+                    cond = list(neg if na else pos) + [f for f in side_facts if f not in facts and f not in (neg if na else pos)]
+                    inner = b_ if na else a_
+                    cond += [f for f in self.__dict__.get("phi_cond", {}).get(unparse(inner), []) if f not in cond]
+                    self.__dict__.setdefault("phi_cond", {})[unparse(mv)] = cond
+                    _PHI_COND_ALL[unparse(mv)] = cond
             common = [f for f in r1[1] if f in r2[1]]
             return merged, common
         if isinstance(stmt, (ast.For, ast.While)):
@@ -784,7 +790,16 @@ def _narrow_none(env: Dict[str, ast.AST], test: ast.AST, positive: bool) -> Dict
     for nm in names:
         v = out.get(nm)
         if isinstance(v, ast.Call) and isinstance(v.func, ast.Name) and v.func.id == PHI:
-            rest = [a for a in v.args if not (isinstance(a, ast.Constant) and a.value is None)]
+            def flat(x):
+                if isinstance(x, ast.Call) and isinstance(x.func, ast.Name) and x.func.id == PHI:
+                    return [y for a in x.args for y in flat(a)]
+                return [x]
+            allv = flat(v)
+            rest = []
+            for a in allv:
+                if not (isinstance(a, ast.Constant) and a.value is None) and unparse(a) not in {unparse(r_) for r_ in rest}:
+                    rest.append(a)
+            v = mk_call(PHI, allv)
             if len(rest) == 1 and len(rest) < len(v.args):
                 out[nm] = rest[0]
             elif 1 < len(rest) < len(v.args):
